@@ -110,3 +110,19 @@ Proof.
     exists t. split; [exact Hm | reflexivity].
   - intros (t & Ht & ->). exists (VTup t). split; [reflexivity | exact Ht].
 Qed.
+
+(* the operators of the expression language are these functions, for every operand expression, scope and fuel *)
+Theorem join_operator_is_join_data fuel rho op a b la lb :
+  eval fuel rho a = Ok (D (VSet la)) -> eval fuel rho b = Ok (D (VSet lb)) ->
+  eval (S fuel) rho (EJoin op a b) = (do r <- join_data op la lb; Ok (D r)).
+Proof. intros Ha Hb. cbn [eval evalF]. rewrite Ha, Hb. reflexivity. Qed.
+
+Theorem nest_operator_is_nest_data fuel rho names n a l :
+  eval fuel rho a = Ok (D (VSet l)) ->
+  eval (S fuel) rho (ENest false names n a) = (do r <- nest_data names n l; Ok (D r)).
+Proof. intros Ha. cbn [eval evalF]. rewrite Ha. reflexivity. Qed.
+
+Theorem single_nest_operator_is_single_nest_data fuel rho n a l :
+  eval fuel rho a = Ok (D (VSet l)) ->
+  eval (S fuel) rho (ESingleNest n a) = (do r <- single_nest_data n l; Ok (D r)).
+Proof. intros Ha. cbn [eval evalF]. rewrite Ha. reflexivity. Qed.
